@@ -593,8 +593,20 @@ func (s *scanRun) judgeAndValidate() {
 		fl := s.p.Fails(v)
 		okByID[id] = len(fl) == 0
 		if len(fl) > 0 {
+			obs := map[string]interface{}{"verdict": v}
+			if descs := failingDescriptions(s.jcs, id, fl); descs != nil {
+				obs["descriptions"] = descs
+				quirk := true
+				for _, d := range descs {
+					quirk = quirk && gitPeelPrefixQuirk(d)
+				}
+				if quirk {
+					// KF-D10: the listed finding is exactly this shape of description, nothing else carries its tag
+					obs["tag_site"] = "peel_expression_root_path_ending_in_brace"
+				}
+			}
 			c.AddViolation(Violation{Predicate: strings.Join(fl, ","), Spec: "ScanJudge (ObjGraph oracle)",
-				Kind: "scan", Input: s.src[id], Observed: map[string]interface{}{"verdict": v}})
+				Kind: "scan", Input: s.src[id], Observed: obs})
 		}
 	}
 	tr := runTraces(c, maxTLCInt, maxTLCInt, true, s.traces)
@@ -789,4 +801,50 @@ func crossFormatWitness(r *cliRun) string {
 		}
 	}
 	return ""
+}
+
+// failingDescriptions: when every failed predicate is "description:<metric>", the descriptions that did not resolve.
+func failingDescriptions(jcs []map[string]interface{}, id string, fails []string) []string {
+	var out []string
+	for _, jc := range jcs {
+		if jc["id"] != id {
+			continue
+		}
+		b, _ := json.Marshal(jc["w"])
+		var w map[string]map[string]interface{}
+		if json.Unmarshal(b, &w) != nil {
+			return nil
+		}
+		for _, f := range fails {
+			if !strings.HasPrefix(f, "description:") {
+				return nil
+			}
+			d, _ := w[f[len("description:"):]]["desc"].(string)
+			if d == "" {
+				return nil
+			}
+			out = append(out, d)
+		}
+	}
+	return out
+}
+
+// gitPeelPrefixQuirk: git's peel_onion() takes any expression that ends in '}' and whose last "^{" is followed by
+// a type word and '}' for a peel expression and ignores the rest ("X^{tree}:dir/file}" is read as "X^{tree}"):
+// a description <ROOT with ^{type}>:<path ending in '}'> names the root itself, whatever git-sizer meant.
+func gitPeelPrefixQuirk(desc string) bool {
+	if !strings.HasSuffix(desc, "}") {
+		return false
+	}
+	i := strings.LastIndex(desc, "^{")
+	if i < 0 {
+		return false
+	}
+	rest := desc[i+2:]
+	for _, t := range []string{"commit}", "tag}", "tree}", "blob}", "object}"} {
+		if strings.HasPrefix(rest, t) && len(rest) > len(t) && rest[len(t)] == ':' {
+			return true
+		}
+	}
+	return false
 }
